@@ -21,7 +21,9 @@ func (r readWrapper) Read(p []byte) (n int, err error) {
 
 type bufWriter struct {
 	buf []byte
-	w   io.Writer
+	// n is how much of buf the last Write handed to w successfully.
+	n int
+	w io.Writer
 }
 
 func (w *bufWriter) Write(p []byte) (n int, err error) {
@@ -32,7 +34,9 @@ func (w *bufWriter) Write(p []byte) (n int, err error) {
 	w.buf = w.buf[:len(p)]
 	copy(w.buf, p)
 
-	return w.w.Write(w.buf)
+	w.n, err = w.w.Write(w.buf)
+
+	return w.n, err
 }
 
 func (r *Repo) Store(_ context.Context, path string, content io.Reader) (err error) {
@@ -47,9 +51,11 @@ func (r *Repo) Store(_ context.Context, path string, content io.Reader) (err err
 	defer func() {
 		if errors.Is(err, os.ErrNotEnoughSpace) {
 			err = model.NotEnoughSpaceError{
-				Err:    err,
-				Start:  f,
-				Middle: bytes.NewReader(w.buf),
+				Err:   err,
+				Start: f,
+				// the part of the last chunk that is already in the file must not
+				// be replayed a second time
+				Middle: bytes.NewReader(w.buf[w.n:]),
 				End:    content,
 			}
 		} else {
